@@ -230,8 +230,68 @@ theorem lenLoop_spec {r : Ring} {msg : Bytes} (h : r.d0 ++ r.d1 = msg) (al : Nat
         simp only [lenLoop, hin, h1, h2, h3, h4, h5, h6, h7, h8, h9, h10, h11, or_self, if_false]
         exact this
 
-theorem ringLength_spec (m : Msg) (rest : Bytes) (r : Ring) (hwf : m.WF)
-    (hnb : m.addr.head? ≠ some 35) (h : r.d0 ++ r.d1 = Spec.encode m ++ rest) :
+/-- the address `"#bundle"`: the only address whose encoding starts with the 8 bytes
+    `"#bundle\0"` that `rtosc_message_ring_length` takes for the start of a bundle -/
+def bundleAddr : Bytes := [35, 98, 117, 110, 100, 108, 101]
+
+/-- two NUL-free strings followed by a NUL and anything: equal memory, equal strings -/
+theorem nonul_prefix_eq : ∀ (s t x y : Bytes), NoNul s → NoNul t → s ++ 0 :: x = t ++ 0 :: y → s = t := by
+  intro s
+  induction s with
+  | nil =>
+    intro t x y _ ht h
+    cases t with
+    | nil => rfl
+    | cons c t =>
+      simp only [List.nil_append, List.cons_append, List.cons.injEq] at h
+      exact absurd h.1.symm (ht c List.mem_cons_self)
+  | cons c s ih =>
+    intro t x y hs ht h
+    cases t with
+    | nil =>
+      simp only [List.nil_append, List.cons_append, List.cons.injEq] at h
+      exact absurd h.1 (hs c List.mem_cons_self)
+    | cons d t =>
+      simp only [List.cons_append, List.cons.injEq] at h
+      rw [h.1, ih t x y (fun z hz => hs z (List.mem_cons_of_mem _ hz))
+        (fun z hz => ht z (List.mem_cons_of_mem _ hz)) h.2]
+
+theorem map_deref_take (r : Ring) (n : Nat) (hn : n ≤ (r.d0 ++ r.d1).length) :
+    (List.range n).map r.deref = (r.d0 ++ r.d1).take n := by
+  apply List.ext_getElem
+  · simp only [List.length_map, List.length_range, List.length_take]; omega
+  · intro i h1 h2
+    simp only [List.length_map, List.length_range] at h1
+    have hi : i < (r.d0 ++ r.d1).length := by omega
+    simp only [List.getElem_map, List.getElem_range, List.getElem_take, deref_eq,
+      List.getElem?_eq_getElem hi, Option.getD_some]
+
+/-- the bundle test of `rtosc_message_ring_length` fails on every encoded message whose
+    address is not exactly `"#bundle"` -/
+theorem not_magic_of_encode (m : Msg) (rest : Bytes) (r : Ring) (hwf : m.WF)
+    (hnb : m.addr ≠ bundleAddr) (h : r.d0 ++ r.d1 = Spec.encode m ++ rest) :
+    ¬ ((List.range 8).map r.deref = bundleMagic) := by
+  intro hx
+  have hlen := encode_length m
+  have h8 : 8 ≤ (r.d0 ++ r.d1).length := by
+    rw [h, List.length_append]
+    have := padStr_length m.addr
+    have := padStr_length (44 :: m.tags)
+    simp only [List.length_cons] at *
+    omega
+  rw [map_deref_take r 8 h8, h] at hx
+  have hsplit : Spec.encode m ++ rest = bundleAddr ++ 0 :: (Spec.encode m ++ rest).drop 8 := by
+    conv => lhs; rw [← List.take_append_drop 8 (Spec.encode m ++ rest), hx]
+    rfl
+  rw [encode_layout m rest] at hsplit
+  exact hnb (nonul_prefix_eq _ _ _ _ hwf.addr_nonul (by decide) hsplit)
+
+/-- an address that does not start with '#' is not `"#bundle"` -/
+theorem ne_bundleAddr_of_head {a : Bytes} (h : a.head? ≠ some 35) : a ≠ bundleAddr := by
+  intro e; rw [e] at h; exact h rfl
+
+theorem ringLength_spec' (m : Msg) (rest : Bytes) (r : Ring) (hwf : m.WF)
+    (hnb : m.addr ≠ bundleAddr) (h : r.d0 ++ r.d1 = Spec.encode m ++ rest) :
     ringLength r = some (Spec.encode m).length := by
   have hsz : (Spec.encode m).length < 4294967296 := hwf.size
   have hlen := encode_length m
@@ -239,23 +299,8 @@ theorem ringLength_spec (m : Msg) (rest : Bytes) (r : Ring) (hwf : m.WF)
     have := congrArg List.length h
     simpa [Ring.total] using this
   have hfuel : r.fuel = (Spec.encode m).length + rest.length + 2 := by simp [Ring.fuel, htot]
-  obtain ⟨c, s, hcs⟩ : ∃ c s, m.addr = c :: s := by
-    cases h' : m.addr with
-    | nil => exact absurd h' hwf.addr_ne
-    | cons c s => exact ⟨c, s, rfl⟩
-  have hc35 : c ≠ 35 := by intro hc; rw [hcs, hc] at hnb; simp at hnb
   have hl := encode_layout m rest
-  -- not a bundle
-  have hd0 : (Spec.encode m ++ rest).drop 0 = c :: (s ++ 0 :: (zeros (3 - m.addr.length % 4) ++ 44 ::
-      (m.tags ++ 0 :: (zeros (3 - (m.tags.length + 1) % 4) ++ (m.args.flatMap encArg ++ rest))))) := by
-    rw [List.drop_zero, hl, hcs]; simp
-  have hmagic : ¬ ((List.range 8).map r.deref = bundleMagic) := by
-    intro hx
-    have : (List.range 8).map r.deref = r.deref 0 :: (List.range' 1 7).map r.deref := by
-      rw [List.range_eq_range', show (8 : Nat) = 7 + 1 from rfl, List.range'_succ]; simp
-    rw [this, deref_of_drop h hd0] at hx
-    simp [bundleMagic] at hx
-    exact hc35 hx.1
+  have hmagic := not_magic_of_encode m rest r hwf hnb h
   unfold ringLength
   rw [if_neg hmagic]
   -- the address
@@ -295,4 +340,10 @@ theorem ringLength_spec (m : Msg) (rest : Bytes) (r : Ring) (hwf : m.WF)
   rw [lenLoop_spec h (Aoff m) m.tags m.args (Aoff m + Boff m) rest hwf.matches_ hwf.args_ok (drop_vals m rest)
     (by omega) (by omega) (by omega) (by omega) (by omega)]
   congr 1; omega
+
+/-- the older form (address does not start with '#'); kept for its users -/
+theorem ringLength_spec (m : Msg) (rest : Bytes) (r : Ring) (hwf : m.WF)
+    (hnb : m.addr.head? ≠ some 35) (h : r.d0 ++ r.d1 = Spec.encode m ++ rest) :
+    ringLength r = some (Spec.encode m).length :=
+  ringLength_spec' m rest r hwf (ne_bundleAddr_of_head hnb) h
 end Rtosc.Osc
